@@ -39,7 +39,7 @@ def gen_scenario(rng, tier):
 
 
 def gz_variant(scn, enc):
-    s2 = {k: v for k, v in scn.items() if not k.startswith('_')}
+    s2 = {k: v for k, v in scn.items() if not k.startswith('_') or k == '_expanded'}
     s2['files'] = [dict(f, gzip=enc) for f in scn['files']]
     return s2
 
@@ -50,7 +50,8 @@ def eval_cases(rng, count, extra):
     out = []
     for item in todo:
         scn = item if item is not None else gen_scenario(rng, extra.get('tier', 'quick'))
-        plain = S.run_impl({k: v for k, v in scn.items() if not k.startswith('_')})
+        plain = S.run_impl({k: v for k, v in scn.items()
+                            if not k.startswith('_') or k == '_expanded'})
         gz = [S.run_impl(gz_variant(scn, enc)) for enc in scn['_encodings']]
         item = {'scn': scn, 'plain': plain, 'gz': gz}
         if scn.get('_second'):
